@@ -98,6 +98,18 @@ CLAIMS.update({
             'TLA+ spec + TLC, simulated behaviours replayed with input/module-state fingerprints, trace validation', 'DESIGN.md section 5 C13', 'purity'),
 })
 
+CLAIMS.update({
+    'C05': ('model_checking',
+            'Placement.tla: the Impl of to_image/cutout/multiply through the overlap slices (as mask.py) is model-checked equal to the '
+            'pixel-by-pixel placement Ref for every box position relative to the image (inside, straddling, outside, negative, empty, '
+            'larger), None exactly when nothing overlaps; every state is replayed into the real RegionMask with int/float/Quantity data, '
+            'fill 0/7/NaN/inf, copy flag and boolean mask (values, view-vs-copy, dtype/unit, inputs untouched); random boxes to 1e8 and '
+            'images to 40x40 are validated by Trace_Placement.tla.',
+            'Trusts TLC and the cell-by-cell comparison. multiply with non-zero fill: weight-0 and outside-image cells may be fill, fill*weight or 0 '
+            '(left open by the statement); strict for fill 0.',
+            'TLA+ spec + TLC exhaustive, spec->code replay of every state, code->spec trace validation', 'DESIGN.md section 5 C05', 'placement'),
+})
+
 PENDING_REASON = ('specification module for this property is designed in DESIGN.md but its TLA+ module and '
                   'conformance binding are not built yet; not claimed until they are')
 
@@ -161,6 +173,8 @@ ENGINES.append({'name': 'objects', 'path': 'specs/Objects.tla specs/MC_Objects.t
                 'serves_properties': ['C16', 'C17'], 'kind_free_text': 'heap model with identity; every state an implementation test'})
 ENGINES.append({'name': 'purity', 'path': 'specs/Purity.tla specs/Trace_Purity.tla vf/purity.py vf/engines/c13.py',
                 'serves_properties': ['C13'], 'kind_free_text': 'call histories from TLC -simulate replayed with deep fingerprints; fresh-interpreter comparison'})
+ENGINES.append({'name': 'placement', 'path': 'specs/PlacementOps.tla specs/Placement.tla specs/Trace_Placement.tla vf/engines/c05.py',
+                'serves_properties': ['C05'], 'kind_free_text': 'exact placement model of RegionMask operations'})
 NA = {}
 
 
